@@ -1,6 +1,88 @@
 //! further operations (added per property)
 use serde_json::{json, Value};
 
-pub fn dispatch(op: &str, _req: &Value) -> Value {
-    json!({"error": format!("unknown op {op}")})
+use crate::{cps_to_string, string_to_cps};
+
+pub fn dispatch(op: &str, req: &Value) -> Value {
+    match op {
+        "resolve_timestamp" => resolve_ts(req),
+        "ts_sweep" => ts_sweep(req),
+        _ => json!({"error": format!("unknown op {op}")}),
+    }
+}
+
+fn resolve_ts(req: &Value) -> Value {
+    let p = cps_to_string(&req["pattern"]);
+    match zerv::version::zerv::resolve_timestamp(&p, req["ts"].as_u64().unwrap()) {
+        Ok(s) => json!({"ok": true, "out": string_to_cps(&s)}),
+        Err(e) => json!({"ok": false, "err": e.to_string()}),
+    }
+}
+
+fn civil(z: i64) -> (i64, u32, u32) {
+    let z = z + 719_468;
+    let era = if z >= 0 { z } else { z - 146_096 } / 146_097;
+    let doe = (z - era * 146_097) as u64;
+    let yoe = (doe - doe / 1460 + doe / 36_524 - doe / 146_096) / 365;
+    let y = yoe as i64 + era * 400;
+    let doy = doe - (365 * yoe + yoe / 4 - yoe / 100);
+    let mp = (5 * doy + 2) / 153;
+    let d = (doy - (153 * mp + 2) / 5 + 1) as u32;
+    let m = if mp < 10 { mp + 3 } else { mp - 9 } as u32;
+    (if m <= 2 { y + 1 } else { y }, m, d)
+}
+
+pub fn reference(pattern: &str, ts: u64) -> String {
+    let days = (ts / 86_400) as i64;
+    let sod = ts % 86_400;
+    let (y, m, d) = civil(days);
+    let leap = (y % 4 == 0 && y % 100 != 0) || y % 400 == 0;
+    let cum = [0u32, 31, 59, 90, 120, 151, 181, 212, 243, 273, 304, 334];
+    let ord = cum[(m - 1) as usize] + d + if leap && m > 2 { 1 } else { 0 };
+    let wd = ((days + 3) % 7) as u32;
+    let week = (ord + 6 - wd) / 7;
+    let (h, mi, s) = (sod / 3600, (sod % 3600) / 60, sod % 60);
+    match pattern {
+        "YYYY" => format!("{:04}", y),
+        "YY" => format!("{:02}", y % 100),
+        "MM" => format!("{}", m),
+        "0M" => format!("{:02}", m),
+        "DD" => format!("{}", d),
+        "0D" => format!("{:02}", d),
+        "HH" => format!("{}", h),
+        "0H" => format!("{:02}", h),
+        "mm" => format!("{}", mi),
+        "0m" => format!("{:02}", mi),
+        "SS" => format!("{}", s),
+        "0S" => format!("{:02}", s),
+        "WW" => format!("{}", week),
+        "0W" => format!("{:02}", week),
+        "compact_date" => format!("{:04}{:02}{:02}", y, m, d),
+        "compact_datetime" => format!("{:04}{:02}{:02}{:02}{:02}{:02}", y, m, d, h, mi, s),
+        _ => String::from("?"),
+    }
+}
+
+/// every day 1970-01-01..2199-12-31 at its first and last second (+ seeded instants), all 16 patterns
+fn ts_sweep(req: &Value) -> Value {
+    let pats = ["YYYY", "YY", "MM", "0M", "DD", "0D", "HH", "0H", "mm", "0m", "SS", "0S", "WW", "0W", "compact_date", "compact_datetime"];
+    let mut seed = req["seed"].as_u64().unwrap_or(0).wrapping_mul(6364136223846793005).wrapping_add(1442695040888963407);
+    let mut n = 0u64;
+    let mut bad: Vec<Value> = vec![];
+    let last_day = 7_258_118_400u64 / 86_400;
+    for day in 0..last_day {
+        seed = seed.wrapping_mul(6364136223846793005).wrapping_add(1442695040888963407);
+        let inside = (seed >> 33) % 86_400;
+        for ts in [day * 86_400, day * 86_400 + 86_399, day * 86_400 + inside] {
+            for p in pats.iter() {
+                n += 1;
+                let got = zerv::version::zerv::resolve_timestamp(p, ts).ok();
+                let exp = reference(p, ts);
+                if got.as_deref() != Some(exp.as_str()) && bad.len() < 5 {
+                    bad.push(json!({"pattern": p, "ts": ts, "got": got, "expected": exp}));
+                }
+            }
+        }
+    }
+    json!({"evaluations": n, "mismatches": bad})
 }
